@@ -43,8 +43,9 @@ def build_map(clsname, rows, how="ctor", rng=None):
         other = StandardGeneticMap(vrnt_chrgrp=ch, vrnt_phypos=ph, vrnt_genpos=ge * 3.0 + 0.5) if std else \
             ExtendedGeneticMap(vrnt_chrgrp=ch, vrnt_phypos=ph, vrnt_stop=ph + 1, vrnt_genpos=ge * 3.0 + 0.5)
         kw["spline"] = dict(other.spline)
+    # markers of an extended map may be longer than one position (start < stop): positions refer to the marker START
     m = StandardGeneticMap(vrnt_chrgrp=ch, vrnt_phypos=ph, vrnt_genpos=ge, **kw) if std else \
-        ExtendedGeneticMap(vrnt_chrgrp=ch, vrnt_phypos=ph, vrnt_stop=ph + 1, vrnt_genpos=ge, **kw)
+        ExtendedGeneticMap(vrnt_chrgrp=ch, vrnt_phypos=ph, vrnt_stop=ph + 1 + 2 * (ph % 3), vrnt_genpos=ge, **kw)
     if how == "reorder":
         perm = list(range(len(rows))); (rng or random).shuffle(perm)
         m.reorder(np.array(perm))
